@@ -181,6 +181,23 @@ Record Reduced (s b : st) (umap : gmap positive Z) : Prop := {
              (roots s) rs;
 }.
 
+Lemma Reduced_unfold s b umap :
+  Reduced s b umap ↔
+  Inv b ∧ vars b = vars s ∧ lvl2var b = lvl2var s ∧ last_len b = None ∧ rctx b = false ∧
+  dom umap = dom (succ s) ∧
+  (∀ n x, umap !! n = Some x →
+     valid b x ∧ (0 < x)%Z ∧ (∀ a, D b x a = D s (Z.pos n) a) ∧
+     ∀ ρ, denv b x ρ = denv s (Z.pos n) ρ) ∧
+  ∃ rs, roots b = remove_dups (merge_sort Z.le rs) ∧
+     Forall2 (fun v x => valid b x ∧ (∃ p, umap !! absn v = Some p ∧ x = flip p v) ∧
+                         (∀ a, D b x a = D s v a) ∧ ∀ ρ, denv b x ρ = denv s v ρ)
+             (roots s) rs.
+Proof.
+  split.
+  - intros HR. split_and!; apply HR.
+  - intros (?&?&?&?&?&?&?&?). by split.
+Qed.
+
 Section reduce.
 Context (s : st) (HI : Inv s).
 
